@@ -14,7 +14,13 @@ theorem lwf_idle {s s' : State} {a : ActorId} {c : Choice} (inv1 : Inv1 s) (g1 :
   simp only [LWf, BeginWf] at g w
   unfold stepIdle at hs
   conc_split hs
-  all_goals (goal_simp; grind)
+  all_goals (
+    by_cases hba : b = a
+    · subst hba; (try goal_simp); grind
+    · (try simp only [State.put, State.putS, State.finish, State.write, upd_apply, if_neg hba])
+      first
+      | exact g
+      | ((try goal_simp); grind))
 
 set_option maxHeartbeats 1000000 in
 theorem lwf_begin {s s' : State} {a : ActorId} {c : Choice} (inv1 : Inv1 s) (g1 : Lwf s)
@@ -26,7 +32,13 @@ theorem lwf_begin {s s' : State} {a : ActorId} {c : Choice} (inv1 : Inv1 s) (g1 
   simp only [LWf, BeginWf] at g w
   unfold stepBegin at hs
   conc_split hs
-  all_goals (goal_simp; grind)
+  all_goals (
+    by_cases hba : b = a
+    · subst hba; (try goal_simp); grind
+    · (try simp only [State.put, State.putS, State.finish, State.write, upd_apply, if_neg hba])
+      first
+      | exact g
+      | ((try goal_simp); grind))
 
 set_option maxHeartbeats 1000000 in
 theorem lwf_commit {s s' : State} {a : ActorId} {c : Choice} (inv1 : Inv1 s) (g1 : Lwf s)
@@ -38,7 +50,13 @@ theorem lwf_commit {s s' : State} {a : ActorId} {c : Choice} (inv1 : Inv1 s) (g1
   simp only [LWf, BeginWf] at g w
   unfold stepCommit at hs
   conc_split hs
-  all_goals (goal_simp; grind)
+  all_goals (
+    by_cases hba : b = a
+    · subst hba; (try goal_simp); grind
+    · (try simp only [State.put, State.putS, State.finish, State.write, upd_apply, if_neg hba])
+      first
+      | exact g
+      | ((try goal_simp); grind))
 
 set_option maxHeartbeats 1000000 in
 theorem lwf_abort {s s' : State} {a : ActorId} {c : Choice} (inv1 : Inv1 s) (g1 : Lwf s)
@@ -50,7 +68,13 @@ theorem lwf_abort {s s' : State} {a : ActorId} {c : Choice} (inv1 : Inv1 s) (g1 
   simp only [LWf, BeginWf] at g w
   unfold stepAbort at hs
   conc_split hs
-  all_goals (goal_simp; grind)
+  all_goals (
+    by_cases hba : b = a
+    · subst hba; (try goal_simp); grind
+    · (try simp only [State.put, State.putS, State.finish, State.write, upd_apply, if_neg hba])
+      first
+      | exact g
+      | ((try goal_simp); grind))
 
 set_option maxHeartbeats 1000000 in
 theorem lwf_after {s s' : State} {a : ActorId} {c : Choice} (inv1 : Inv1 s) (g1 : Lwf s)
@@ -62,7 +86,13 @@ theorem lwf_after {s s' : State} {a : ActorId} {c : Choice} (inv1 : Inv1 s) (g1 
   simp only [LWf, BeginWf] at g w
   unfold stepAfter at hs
   conc_split hs
-  all_goals (goal_simp; grind)
+  all_goals (
+    by_cases hba : b = a
+    · subst hba; (try goal_simp); grind
+    · (try simp only [State.put, State.putS, State.finish, State.write, upd_apply, if_neg hba])
+      first
+      | exact g
+      | ((try goal_simp); grind))
 
 set_option maxHeartbeats 1000000 in
 theorem lwf_use {s s' : State} {a : ActorId} {c : Choice} (inv1 : Inv1 s) (g1 : Lwf s)
@@ -74,7 +104,13 @@ theorem lwf_use {s s' : State} {a : ActorId} {c : Choice} (inv1 : Inv1 s) (g1 : 
   simp only [LWf, BeginWf] at g w
   unfold stepUse at hs
   conc_split hs
-  all_goals (goal_simp; grind)
+  all_goals (
+    by_cases hba : b = a
+    · subst hba; (try goal_simp); grind
+    · (try simp only [State.put, State.putS, State.finish, State.write, upd_apply, if_neg hba])
+      first
+      | exact g
+      | ((try goal_simp); grind))
 
 set_option maxHeartbeats 1000000 in
 theorem lwf_sess {s s' : State} {a : ActorId} {c : Choice} (inv1 : Inv1 s) (g1 : Lwf s)
@@ -86,7 +122,13 @@ theorem lwf_sess {s s' : State} {a : ActorId} {c : Choice} (inv1 : Inv1 s) (g1 :
   simp only [LWf, BeginWf] at g w
   unfold stepSess at hs
   conc_split hs
-  all_goals (goal_simp; grind)
+  all_goals (
+    by_cases hba : b = a
+    · subst hba; (try goal_simp); grind
+    · (try simp only [State.put, State.putS, State.finish, State.write, upd_apply, if_neg hba])
+      first
+      | exact g
+      | ((try goal_simp); grind))
 
 set_option maxHeartbeats 1000000 in
 theorem lwf_close {s s' : State} {a : ActorId} {c : Choice} (inv1 : Inv1 s) (g1 : Lwf s)
@@ -98,7 +140,13 @@ theorem lwf_close {s s' : State} {a : ActorId} {c : Choice} (inv1 : Inv1 s) (g1 
   simp only [LWf, BeginWf] at g w
   unfold stepClose at hs
   conc_split hs
-  all_goals (goal_simp; grind)
+  all_goals (
+    by_cases hba : b = a
+    · subst hba; (try goal_simp); grind
+    · (try simp only [State.put, State.putS, State.finish, State.write, upd_apply, if_neg hba])
+      first
+      | exact g
+      | ((try goal_simp); grind))
 
 set_option maxHeartbeats 1000000 in
 theorem lwf_exp {s s' : State} {a : ActorId} {c : Choice} (inv1 : Inv1 s) (g1 : Lwf s)
@@ -110,7 +158,13 @@ theorem lwf_exp {s s' : State} {a : ActorId} {c : Choice} (inv1 : Inv1 s) (g1 : 
   simp only [LWf, BeginWf] at g w
   unfold stepExp at hs
   conc_split hs
-  all_goals (goal_simp; grind)
+  all_goals (
+    by_cases hba : b = a
+    · subst hba; (try goal_simp); grind
+    · (try simp only [State.put, State.putS, State.finish, State.write, upd_apply, if_neg hba])
+      first
+      | exact g
+      | ((try goal_simp); grind))
 
 set_option maxHeartbeats 1000000 in
 theorem rng_idle {s s' : State} {a : ActorId} {c : Choice} (hle : a ≤ s.n) (g1 : Rng s)
@@ -120,7 +174,15 @@ theorem rng_idle {s s' : State} {a : ActorId} {c : Choice} (hle : a ≤ s.n) (g1
   clear g1
   unfold stepIdle at hs
   conc_split hs
-  all_goals (goal_simp; simp only [State.put, State.putS, State.finish, State.write] at hb; grind)
+  all_goals (
+    by_cases hba : b = a
+    · subst hba
+      simp only [State.put, State.putS, State.finish, State.write] at hb
+      exact absurd hle (Nat.not_le_of_gt hb)
+    · (try simp only [State.put, State.putS, State.finish, State.write, upd_apply, if_neg hba])
+      first
+      | exact g hb
+      | (goal_simp; simp only [State.put, State.putS, State.finish, State.write] at hb; grind))
 
 set_option maxHeartbeats 1000000 in
 theorem rng_begin {s s' : State} {a : ActorId} {c : Choice} (hle : a ≤ s.n) (g1 : Rng s)
@@ -130,7 +192,15 @@ theorem rng_begin {s s' : State} {a : ActorId} {c : Choice} (hle : a ≤ s.n) (g
   clear g1
   unfold stepBegin at hs
   conc_split hs
-  all_goals (goal_simp; simp only [State.put, State.putS, State.finish, State.write] at hb; grind)
+  all_goals (
+    by_cases hba : b = a
+    · subst hba
+      simp only [State.put, State.putS, State.finish, State.write] at hb
+      exact absurd hle (Nat.not_le_of_gt hb)
+    · (try simp only [State.put, State.putS, State.finish, State.write, upd_apply, if_neg hba])
+      first
+      | exact g hb
+      | (goal_simp; simp only [State.put, State.putS, State.finish, State.write] at hb; grind))
 
 set_option maxHeartbeats 1000000 in
 theorem rng_commit {s s' : State} {a : ActorId} {c : Choice} (hle : a ≤ s.n) (g1 : Rng s)
@@ -140,7 +210,15 @@ theorem rng_commit {s s' : State} {a : ActorId} {c : Choice} (hle : a ≤ s.n) (
   clear g1
   unfold stepCommit at hs
   conc_split hs
-  all_goals (goal_simp; simp only [State.put, State.putS, State.finish, State.write] at hb; grind)
+  all_goals (
+    by_cases hba : b = a
+    · subst hba
+      simp only [State.put, State.putS, State.finish, State.write] at hb
+      exact absurd hle (Nat.not_le_of_gt hb)
+    · (try simp only [State.put, State.putS, State.finish, State.write, upd_apply, if_neg hba])
+      first
+      | exact g hb
+      | (goal_simp; simp only [State.put, State.putS, State.finish, State.write] at hb; grind))
 
 set_option maxHeartbeats 1000000 in
 theorem rng_abort {s s' : State} {a : ActorId} {c : Choice} (hle : a ≤ s.n) (g1 : Rng s)
@@ -150,7 +228,15 @@ theorem rng_abort {s s' : State} {a : ActorId} {c : Choice} (hle : a ≤ s.n) (g
   clear g1
   unfold stepAbort at hs
   conc_split hs
-  all_goals (goal_simp; simp only [State.put, State.putS, State.finish, State.write] at hb; grind)
+  all_goals (
+    by_cases hba : b = a
+    · subst hba
+      simp only [State.put, State.putS, State.finish, State.write] at hb
+      exact absurd hle (Nat.not_le_of_gt hb)
+    · (try simp only [State.put, State.putS, State.finish, State.write, upd_apply, if_neg hba])
+      first
+      | exact g hb
+      | (goal_simp; simp only [State.put, State.putS, State.finish, State.write] at hb; grind))
 
 set_option maxHeartbeats 1000000 in
 theorem rng_after {s s' : State} {a : ActorId} {c : Choice} (hle : a ≤ s.n) (g1 : Rng s)
@@ -160,7 +246,15 @@ theorem rng_after {s s' : State} {a : ActorId} {c : Choice} (hle : a ≤ s.n) (g
   clear g1
   unfold stepAfter at hs
   conc_split hs
-  all_goals (goal_simp; simp only [State.put, State.putS, State.finish, State.write] at hb; grind)
+  all_goals (
+    by_cases hba : b = a
+    · subst hba
+      simp only [State.put, State.putS, State.finish, State.write] at hb
+      exact absurd hle (Nat.not_le_of_gt hb)
+    · (try simp only [State.put, State.putS, State.finish, State.write, upd_apply, if_neg hba])
+      first
+      | exact g hb
+      | (goal_simp; simp only [State.put, State.putS, State.finish, State.write] at hb; grind))
 
 set_option maxHeartbeats 1000000 in
 theorem rng_use {s s' : State} {a : ActorId} {c : Choice} (hle : a ≤ s.n) (g1 : Rng s)
@@ -170,7 +264,15 @@ theorem rng_use {s s' : State} {a : ActorId} {c : Choice} (hle : a ≤ s.n) (g1 
   clear g1
   unfold stepUse at hs
   conc_split hs
-  all_goals (goal_simp; simp only [State.put, State.putS, State.finish, State.write] at hb; grind)
+  all_goals (
+    by_cases hba : b = a
+    · subst hba
+      simp only [State.put, State.putS, State.finish, State.write] at hb
+      exact absurd hle (Nat.not_le_of_gt hb)
+    · (try simp only [State.put, State.putS, State.finish, State.write, upd_apply, if_neg hba])
+      first
+      | exact g hb
+      | (goal_simp; simp only [State.put, State.putS, State.finish, State.write] at hb; grind))
 
 set_option maxHeartbeats 1000000 in
 theorem rng_sess {s s' : State} {a : ActorId} {c : Choice} (hle : a ≤ s.n) (g1 : Rng s)
@@ -180,7 +282,15 @@ theorem rng_sess {s s' : State} {a : ActorId} {c : Choice} (hle : a ≤ s.n) (g1
   clear g1
   unfold stepSess at hs
   conc_split hs
-  all_goals (goal_simp; simp only [State.put, State.putS, State.finish, State.write] at hb; grind)
+  all_goals (
+    by_cases hba : b = a
+    · subst hba
+      simp only [State.put, State.putS, State.finish, State.write] at hb
+      exact absurd hle (Nat.not_le_of_gt hb)
+    · (try simp only [State.put, State.putS, State.finish, State.write, upd_apply, if_neg hba])
+      first
+      | exact g hb
+      | (goal_simp; simp only [State.put, State.putS, State.finish, State.write] at hb; grind))
 
 set_option maxHeartbeats 1000000 in
 theorem rng_close {s s' : State} {a : ActorId} {c : Choice} (hle : a ≤ s.n) (g1 : Rng s)
@@ -190,7 +300,15 @@ theorem rng_close {s s' : State} {a : ActorId} {c : Choice} (hle : a ≤ s.n) (g
   clear g1
   unfold stepClose at hs
   conc_split hs
-  all_goals (goal_simp; simp only [State.put, State.putS, State.finish, State.write] at hb; grind)
+  all_goals (
+    by_cases hba : b = a
+    · subst hba
+      simp only [State.put, State.putS, State.finish, State.write] at hb
+      exact absurd hle (Nat.not_le_of_gt hb)
+    · (try simp only [State.put, State.putS, State.finish, State.write, upd_apply, if_neg hba])
+      first
+      | exact g hb
+      | (goal_simp; simp only [State.put, State.putS, State.finish, State.write] at hb; grind))
 
 set_option maxHeartbeats 1000000 in
 theorem rng_exp {s s' : State} {a : ActorId} {c : Choice} (hle : a ≤ s.n) (g1 : Rng s)
@@ -200,7 +318,15 @@ theorem rng_exp {s s' : State} {a : ActorId} {c : Choice} (hle : a ≤ s.n) (g1 
   clear g1
   unfold stepExp at hs
   conc_split hs
-  all_goals (goal_simp; simp only [State.put, State.putS, State.finish, State.write] at hb; grind)
+  all_goals (
+    by_cases hba : b = a
+    · subst hba
+      simp only [State.put, State.putS, State.finish, State.write] at hb
+      exact absurd hle (Nat.not_le_of_gt hb)
+    · (try simp only [State.put, State.putS, State.finish, State.write, upd_apply, if_neg hba])
+      first
+      | exact g hb
+      | (goal_simp; simp only [State.put, State.putS, State.finish, State.write] at hb; grind))
 
 set_option maxHeartbeats 1000000 in
 theorem bnd_idle {s s' : State} {a : ActorId} {c : Choice} (lw : Lwf s) (g1 : Bnd s)
@@ -215,10 +341,26 @@ theorem bnd_idle {s s' : State} {a : ActorId} {c : Choice} (lw : Lwf s) (g1 : Bn
   conc_split hs
   all_goals (
     refine ⟨?_, fun b => ?_, fun b => ?_, ?_⟩
-    · goal_simp; grind
-    · have b2b := b2 b; goal_simp; grind
-    · have b3b := b3 b; goal_simp; grind
-    · goal_simp; grind)
+    · first
+      | exact b1
+      | (clear b2 b3; goal_simp; grind)
+    · have b2b := b2 b
+      by_cases hba : b = a
+      · subst hba; clear b2 b3; (try goal_simp); grind
+      · (try simp only [State.put, State.putS, State.finish, State.write, upd_apply, if_neg hba])
+        first
+        | exact b2b
+        | (clear b2 b3; (try goal_simp); grind)
+    · have b3b := b3 b
+      by_cases hba : b = a
+      · subst hba; clear b2 b3; (try goal_simp); grind
+      · (try simp only [State.put, State.putS, State.finish, State.write, upd_apply, if_neg hba])
+        first
+        | exact b3b
+        | (clear b2 b3; (try goal_simp); grind)
+    · first
+      | exact b4
+      | (clear b2 b3; goal_simp; grind))
 
 set_option maxHeartbeats 1000000 in
 theorem bnd_begin {s s' : State} {a : ActorId} {c : Choice} (lw : Lwf s) (g1 : Bnd s)
@@ -233,10 +375,26 @@ theorem bnd_begin {s s' : State} {a : ActorId} {c : Choice} (lw : Lwf s) (g1 : B
   conc_split hs
   all_goals (
     refine ⟨?_, fun b => ?_, fun b => ?_, ?_⟩
-    · goal_simp; grind
-    · have b2b := b2 b; goal_simp; grind
-    · have b3b := b3 b; goal_simp; grind
-    · goal_simp; grind)
+    · first
+      | exact b1
+      | (clear b2 b3; goal_simp; grind)
+    · have b2b := b2 b
+      by_cases hba : b = a
+      · subst hba; clear b2 b3; (try goal_simp); grind
+      · (try simp only [State.put, State.putS, State.finish, State.write, upd_apply, if_neg hba])
+        first
+        | exact b2b
+        | (clear b2 b3; (try goal_simp); grind)
+    · have b3b := b3 b
+      by_cases hba : b = a
+      · subst hba; clear b2 b3; (try goal_simp); grind
+      · (try simp only [State.put, State.putS, State.finish, State.write, upd_apply, if_neg hba])
+        first
+        | exact b3b
+        | (clear b2 b3; (try goal_simp); grind)
+    · first
+      | exact b4
+      | (clear b2 b3; goal_simp; grind))
 
 set_option maxHeartbeats 1000000 in
 theorem bnd_commit {s s' : State} {a : ActorId} {c : Choice} (lw : Lwf s) (g1 : Bnd s)
@@ -251,10 +409,26 @@ theorem bnd_commit {s s' : State} {a : ActorId} {c : Choice} (lw : Lwf s) (g1 : 
   conc_split hs
   all_goals (
     refine ⟨?_, fun b => ?_, fun b => ?_, ?_⟩
-    · goal_simp; grind
-    · have b2b := b2 b; goal_simp; grind
-    · have b3b := b3 b; goal_simp; grind
-    · goal_simp; grind)
+    · first
+      | exact b1
+      | (clear b2 b3; goal_simp; grind)
+    · have b2b := b2 b
+      by_cases hba : b = a
+      · subst hba; clear b2 b3; (try goal_simp); grind
+      · (try simp only [State.put, State.putS, State.finish, State.write, upd_apply, if_neg hba])
+        first
+        | exact b2b
+        | (clear b2 b3; (try goal_simp); grind)
+    · have b3b := b3 b
+      by_cases hba : b = a
+      · subst hba; clear b2 b3; (try goal_simp); grind
+      · (try simp only [State.put, State.putS, State.finish, State.write, upd_apply, if_neg hba])
+        first
+        | exact b3b
+        | (clear b2 b3; (try goal_simp); grind)
+    · first
+      | exact b4
+      | (clear b2 b3; goal_simp; grind))
 
 set_option maxHeartbeats 1000000 in
 theorem bnd_abort {s s' : State} {a : ActorId} {c : Choice} (lw : Lwf s) (g1 : Bnd s)
@@ -269,10 +443,26 @@ theorem bnd_abort {s s' : State} {a : ActorId} {c : Choice} (lw : Lwf s) (g1 : B
   conc_split hs
   all_goals (
     refine ⟨?_, fun b => ?_, fun b => ?_, ?_⟩
-    · goal_simp; grind
-    · have b2b := b2 b; goal_simp; grind
-    · have b3b := b3 b; goal_simp; grind
-    · goal_simp; grind)
+    · first
+      | exact b1
+      | (clear b2 b3; goal_simp; grind)
+    · have b2b := b2 b
+      by_cases hba : b = a
+      · subst hba; clear b2 b3; (try goal_simp); grind
+      · (try simp only [State.put, State.putS, State.finish, State.write, upd_apply, if_neg hba])
+        first
+        | exact b2b
+        | (clear b2 b3; (try goal_simp); grind)
+    · have b3b := b3 b
+      by_cases hba : b = a
+      · subst hba; clear b2 b3; (try goal_simp); grind
+      · (try simp only [State.put, State.putS, State.finish, State.write, upd_apply, if_neg hba])
+        first
+        | exact b3b
+        | (clear b2 b3; (try goal_simp); grind)
+    · first
+      | exact b4
+      | (clear b2 b3; goal_simp; grind))
 
 set_option maxHeartbeats 1000000 in
 theorem bnd_after {s s' : State} {a : ActorId} {c : Choice} (lw : Lwf s) (g1 : Bnd s)
@@ -287,10 +477,26 @@ theorem bnd_after {s s' : State} {a : ActorId} {c : Choice} (lw : Lwf s) (g1 : B
   conc_split hs
   all_goals (
     refine ⟨?_, fun b => ?_, fun b => ?_, ?_⟩
-    · goal_simp; grind
-    · have b2b := b2 b; goal_simp; grind
-    · have b3b := b3 b; goal_simp; grind
-    · goal_simp; grind)
+    · first
+      | exact b1
+      | (clear b2 b3; goal_simp; grind)
+    · have b2b := b2 b
+      by_cases hba : b = a
+      · subst hba; clear b2 b3; (try goal_simp); grind
+      · (try simp only [State.put, State.putS, State.finish, State.write, upd_apply, if_neg hba])
+        first
+        | exact b2b
+        | (clear b2 b3; (try goal_simp); grind)
+    · have b3b := b3 b
+      by_cases hba : b = a
+      · subst hba; clear b2 b3; (try goal_simp); grind
+      · (try simp only [State.put, State.putS, State.finish, State.write, upd_apply, if_neg hba])
+        first
+        | exact b3b
+        | (clear b2 b3; (try goal_simp); grind)
+    · first
+      | exact b4
+      | (clear b2 b3; goal_simp; grind))
 
 set_option maxHeartbeats 1000000 in
 theorem bnd_use {s s' : State} {a : ActorId} {c : Choice} (lw : Lwf s) (g1 : Bnd s)
@@ -305,10 +511,26 @@ theorem bnd_use {s s' : State} {a : ActorId} {c : Choice} (lw : Lwf s) (g1 : Bnd
   conc_split hs
   all_goals (
     refine ⟨?_, fun b => ?_, fun b => ?_, ?_⟩
-    · goal_simp; grind
-    · have b2b := b2 b; goal_simp; grind
-    · have b3b := b3 b; goal_simp; grind
-    · goal_simp; grind)
+    · first
+      | exact b1
+      | (clear b2 b3; goal_simp; grind)
+    · have b2b := b2 b
+      by_cases hba : b = a
+      · subst hba; clear b2 b3; (try goal_simp); grind
+      · (try simp only [State.put, State.putS, State.finish, State.write, upd_apply, if_neg hba])
+        first
+        | exact b2b
+        | (clear b2 b3; (try goal_simp); grind)
+    · have b3b := b3 b
+      by_cases hba : b = a
+      · subst hba; clear b2 b3; (try goal_simp); grind
+      · (try simp only [State.put, State.putS, State.finish, State.write, upd_apply, if_neg hba])
+        first
+        | exact b3b
+        | (clear b2 b3; (try goal_simp); grind)
+    · first
+      | exact b4
+      | (clear b2 b3; goal_simp; grind))
 
 set_option maxHeartbeats 1000000 in
 theorem bnd_sess {s s' : State} {a : ActorId} {c : Choice} (lw : Lwf s) (g1 : Bnd s)
@@ -323,10 +545,26 @@ theorem bnd_sess {s s' : State} {a : ActorId} {c : Choice} (lw : Lwf s) (g1 : Bn
   conc_split hs
   all_goals (
     refine ⟨?_, fun b => ?_, fun b => ?_, ?_⟩
-    · goal_simp; grind
-    · have b2b := b2 b; goal_simp; grind
-    · have b3b := b3 b; goal_simp; grind
-    · goal_simp; grind)
+    · first
+      | exact b1
+      | (clear b2 b3; goal_simp; grind)
+    · have b2b := b2 b
+      by_cases hba : b = a
+      · subst hba; clear b2 b3; (try goal_simp); grind
+      · (try simp only [State.put, State.putS, State.finish, State.write, upd_apply, if_neg hba])
+        first
+        | exact b2b
+        | (clear b2 b3; (try goal_simp); grind)
+    · have b3b := b3 b
+      by_cases hba : b = a
+      · subst hba; clear b2 b3; (try goal_simp); grind
+      · (try simp only [State.put, State.putS, State.finish, State.write, upd_apply, if_neg hba])
+        first
+        | exact b3b
+        | (clear b2 b3; (try goal_simp); grind)
+    · first
+      | exact b4
+      | (clear b2 b3; goal_simp; grind))
 
 set_option maxHeartbeats 1000000 in
 theorem bnd_close {s s' : State} {a : ActorId} {c : Choice} (lw : Lwf s) (g1 : Bnd s)
@@ -341,10 +579,26 @@ theorem bnd_close {s s' : State} {a : ActorId} {c : Choice} (lw : Lwf s) (g1 : B
   conc_split hs
   all_goals (
     refine ⟨?_, fun b => ?_, fun b => ?_, ?_⟩
-    · goal_simp; grind
-    · have b2b := b2 b; goal_simp; grind
-    · have b3b := b3 b; goal_simp; grind
-    · goal_simp; grind)
+    · first
+      | exact b1
+      | (clear b2 b3; goal_simp; grind)
+    · have b2b := b2 b
+      by_cases hba : b = a
+      · subst hba; clear b2 b3; (try goal_simp); grind
+      · (try simp only [State.put, State.putS, State.finish, State.write, upd_apply, if_neg hba])
+        first
+        | exact b2b
+        | (clear b2 b3; (try goal_simp); grind)
+    · have b3b := b3 b
+      by_cases hba : b = a
+      · subst hba; clear b2 b3; (try goal_simp); grind
+      · (try simp only [State.put, State.putS, State.finish, State.write, upd_apply, if_neg hba])
+        first
+        | exact b3b
+        | (clear b2 b3; (try goal_simp); grind)
+    · first
+      | exact b4
+      | (clear b2 b3; goal_simp; grind))
 
 set_option maxHeartbeats 1000000 in
 theorem bnd_exp {s s' : State} {a : ActorId} {c : Choice} (lw : Lwf s) (g1 : Bnd s)
@@ -359,9 +613,25 @@ theorem bnd_exp {s s' : State} {a : ActorId} {c : Choice} (lw : Lwf s) (g1 : Bnd
   conc_split hs
   all_goals (
     refine ⟨?_, fun b => ?_, fun b => ?_, ?_⟩
-    · goal_simp; grind
-    · have b2b := b2 b; goal_simp; grind
-    · have b3b := b3 b; goal_simp; grind
-    · goal_simp; grind)
+    · first
+      | exact b1
+      | (clear b2 b3; goal_simp; grind)
+    · have b2b := b2 b
+      by_cases hba : b = a
+      · subst hba; clear b2 b3; (try goal_simp); grind
+      · (try simp only [State.put, State.putS, State.finish, State.write, upd_apply, if_neg hba])
+        first
+        | exact b2b
+        | (clear b2 b3; (try goal_simp); grind)
+    · have b3b := b3 b
+      by_cases hba : b = a
+      · subst hba; clear b2 b3; (try goal_simp); grind
+      · (try simp only [State.put, State.putS, State.finish, State.write, upd_apply, if_neg hba])
+        first
+        | exact b3b
+        | (clear b2 b3; (try goal_simp); grind)
+    · first
+      | exact b4
+      | (clear b2 b3; goal_simp; grind))
 
 end Lungo.Conc
